@@ -596,3 +596,72 @@ def run(ctx) -> None:
     funcs = [d for defs in crystal.methods.values() for d in defs] + [repo.method(IAM, "FieldArray", "tile")]
     _check_axispair(ctx, funcs)
     _check_crystal_generate(ctx, repo.method(IAM, "CrystalPotential", "generate_slices"))
+
+
+# ---- added after the seeded change C08-r3seed3: per-axis components pair up inside the projection kernels
+_inner_run_c08b = run
+
+
+def run(ctx) -> None:  # noqa: F811
+    import re as _re
+
+    from ..terms import FlowNormalizer as _FN
+
+    ctx.rule("R-COMPONENT", "in the projection kernels of abtem/integrals.py (superpose_deltas, "
+             "interpolate_radial_functions and the other functions that take per-axis vectors) every product or "
+             "quotient pairs like components: after inlining temporaries, a monomial that contains the coordinate "
+             "component positions[.., a] (or a pixel offset disk_indices[.., a], a shape/gpts/extent component) and a "
+             "sampling / gpts / shape component [b] has a == b.  A y coordinate divided by the x sampling places an "
+             "atom's footprint at the wrong pixel as soon as the sampling is anisotropic — translation and tiling "
+             "covariance then fail")
+    repo = ctx.repo
+    mod = repo.modules[INTEGRALS]
+    COORD = ("positions", "position", "disk_indices", "indices")
+    GRIDV = ("sampling", "gpts", "shape", "extent", "inverse_sampling")
+    n = 0
+    for f in mod.functions.values():
+        params = set(f.params)
+        if not (params & set(COORD)) or not (params & set(GRIDV)):
+            continue
+        df = DataFlow(f.node)
+        bad = []
+        n_mono = 0
+        for node in df.cfg.nodes:
+            st = node.ast
+            if st is None or node.kind != "stmt" or not isinstance(st, (ast.Assign, ast.AugAssign)):
+                continue
+            nz = _FN(df, node.idx, identity_calls={"int", "round", "float", "floor", "ceil", "rint", "abs"})
+            exprs = [st.value] + [a_ for c_ in ast.walk(st.value) if isinstance(c_, ast.Call) for a_ in c_.args]
+            monos = []
+            for e_ in exprs:
+                try:
+                    monos += list(nz.norm(e_).terms)
+                except Exception:  # noqa: BLE001
+                    continue
+            for mono in monos:
+                comps_c, comps_g = set(), set()
+                for a, _e in mono:
+                    # plain indexed atoms only: name[.., k]; composite atoms (sqrt(...), calls) are analysed
+                    # through their own arguments above
+                    m_ = _re.fullmatch(r"(?:1\*)?(\w+)\[(?:[^\[\]]*,)?(?:1\*)?(\d)\]", a)
+                    if m_:
+                        nm, k = m_.group(1), int(m_.group(2))
+                        if nm in COORD:
+                            comps_c.add((nm, k))
+                        elif nm in GRIDV:
+                            comps_g.add((nm, k))
+                if comps_c and comps_g:
+                    n_mono += 1
+                    ks = {k for _, k in comps_c} | {k for _, k in comps_g}
+                    if len(ks) > 1:
+                        bad.append((st, sorted(comps_c), sorted(comps_g)))
+        if n_mono == 0:
+            continue
+        n += 1
+        ctx.check(not bad, "R-COMPONENT", f"{f.qualname}:components pair up", f.loc(bad[0][0]) if bad else f.where,
+                  f"{n_mono} monomial(s) combine a coordinate component with the grid component of the same axis",
+                  f"`{norm_text(bad[0][0])[:70]}` combines {bad[0][1]} with {bad[0][2]} (after inlining temporaries): a "
+                  "coordinate of one axis is scaled by the grid quantity of the other axis" if bad else "",
+                  key_detail="component")
+    ctx.require(n >= 1, f"R-COMPONENT matched no kernel in {INTEGRALS}")
+    _inner_run_c08b(ctx)
